@@ -34,7 +34,7 @@ MIN_BUDGET = 200
 
 TIERS = {
     'quick': {'runs': 24000, 'classes': 8, 'budget_s': 80},
-    'thorough': {'runs': 300000, 'classes': 32, 'budget_s': 1100},
+    'thorough': {'runs': 500000, 'classes': 32, 'budget_s': 1100},
 }
 
 COMPONENTS = {'real': ['output_to_verilog', 'output_verilog_testbench', '_VerilogSanitizer',
